@@ -22,5 +22,12 @@ if [ "$REPO" != /repo ]; then sed "s#=> /repo#=> $REPO#" "$ENG/go.mod" > "$S/go.
 "$S/vxform" -src "$REPO" -out "$S/gldapx" -export "$ENG/export" -overlay "$S/overlay.json" -virt "$ENG/gldapx" >"$S/xform.log" 2>&1 || { tail "$S/xform.log"; exit 2; }
 (cd "$ENG" && go build $MODFLAG -overlay "$S/overlay.json" -o "$S/sched.bin" ./sched) || exit 2
 export VERIF_ROOT="$ROOT" VERIF_REPO="$REPO" VERIF_NO_EVIDENCE=1 VERIF_SCRATCH_DIR="$S"
+if [ "${1:-}" = list-file ]; then   # list-file <file with "scenario prop" lines> <bound>
+  while read -r scn prop; do
+    [ -n "$scn" ] || continue
+    timeout "${DEV_TIMEOUT:-600}" "$S/sched.bin" one "$scn" "$3" "$prop" 2>&1 | grep -v "^    " | cut -c1-400
+  done < "$2"
+  exit 0
+fi
 timeout "${DEV_TIMEOUT:-600}" "$S/sched.bin" "$@"
 echo "exit=$?"
